@@ -23,7 +23,7 @@ type dsnLine struct {
 		Lrucache string `json:"lrucache"`
 		Size     string `json:"size"`
 	} `json:"dsn"`
-	Usable bool `json:"usable"`
+	Outcome string `json:"outcome"` // ok | either
 }
 
 // replay-dsn (C12, driver surface): every abstract data source name of the specification is
@@ -75,8 +75,9 @@ func replayDSN(args []string) error {
 			dsn += "?" + strings.Join(opts, "&")
 		}
 		db, oerr := sql.Open("updog", dsn)
+		mustWork := ln.Outcome == "ok"
 		if oerr != nil {
-			if ln.Usable {
+			if mustWork {
 				rep.Mismatch(map[string]any{"kind": "dsn-open", "dsn": dsn, "err": oerr.Error()})
 			}
 			return nil
@@ -84,11 +85,11 @@ func replayDSN(args []string) error {
 		defer db.Close()
 		rep.Steps++
 		got := safeQuery(db, text)
-		if ln.Usable != !got.Err || got.Panic != "" || (ln.Usable && !sameRows(got, want)) {
-			rep.Mismatch(map[string]any{"kind": "dsn-query", "dsn": dsn, "usable": ln.Usable, "got": got})
+		if got.Panic != "" || (mustWork && got.Err) || (!got.Err && !sameRows(got, want)) {
+			rep.Mismatch(map[string]any{"kind": "dsn-query", "dsn": dsn, "outcome": ln.Outcome, "got": got})
 			return nil
 		}
-		if !ln.Usable {
+		if got.Err {
 			return nil
 		}
 		// Exec is rejected, never a panic
@@ -119,7 +120,7 @@ func replayDSN(args []string) error {
 			}
 		}
 		if len(rep.Samples) < 3 && rep.Behaviours%37 == 1 {
-			rep.Samples = append(rep.Samples, map[string]any{"dsn": dsn, "usable": ln.Usable})
+			rep.Samples = append(rep.Samples, map[string]any{"dsn": dsn, "outcome": ln.Outcome})
 		}
 		return nil
 	})
